@@ -43,6 +43,15 @@ func FilterPlanFromSeed(seed int64, idx int, class int) FilterPlan {
 		netsim.LieExtraElem, netsim.LieCheckpt, netsim.LiePrevHdr, netsim.LieCount,
 		netsim.LieShortCP, netsim.LieLongCP}
 	mode := r.Intn(10) // 0-5 provable lies + honest; 6-7 any lies; 8 all honest; 9 no honest peer
+	// Mode 5: a coalition: every liar tells the SAME provable lie at the same
+	// height, so the honest peer is outnumbered exactly there.
+	var shared *netsim.Lie
+	if mode == 5 {
+		shared = &netsim.Lie{Kind: kinds[r.Intn(3)], Height: int32(1 + r.Intn(p.ChainLen))}
+		if n < 3 {
+			n = 3 + r.Intn(3)
+		}
+	}
 	for i := 0; i < n; i++ {
 		b := PeerBehaviour{}
 		switch {
@@ -64,7 +73,9 @@ func FilterPlanFromSeed(seed int64, idx int, class int) FilterPlan {
 				}
 			}
 			b.Lies = []netsim.Lie{{Kind: k, Height: h}}
-			if r.Intn(4) == 0 {
+			if shared != nil {
+				b.Lies = []netsim.Lie{*shared}
+			} else if r.Intn(4) == 0 {
 				b.Lies = append(b.Lies, netsim.Lie{Kind: kinds[r.Intn(3)], Height: int32(1 + r.Intn(p.ChainLen))})
 			}
 		}
@@ -364,6 +375,24 @@ func CheckC03(fs *FilterSession, st *StepObs, final bool) []Finding {
 	}
 	if final {
 		out = append(out, fs.checkBans(pf, post)...)
+		// Bounded progress: with an honest peer and only provable lies the
+		// honest value is the one that gets committed, so the session (it
+		// ends after three rounds without progress) must not end with the
+		// filter headers behind the block headers.
+		if fs.Provable() && !fs.Plan.FalseCP && len(pf) < len(post) {
+			h := len(pf)
+			who := ""
+			if nd := fs.G.Lookup(post[h].BlockHash()); nd != nil {
+				for addr, l := range fs.Liars {
+					for bh, kind := range l.Told {
+						if x := fs.G.Lookup(bh); x != nil && x.Height >= nd.Height && int(x.Height) < len(post) && post[x.Height].BlockHash() == bh {
+							who += fmt.Sprintf(" %s told %s at height %d;", addr, kind, x.Height)
+						}
+					}
+				}
+			}
+			out = append(out, Finding{"c03/stuck/provable-lies-honest-present", fmt.Sprintf("three rounds without progress: filter tip %d, block tip %d, although an honest peer answers every request and every configured lie is provably inconsistent with its block;%s bans: %v", len(pf)-1, len(post)-1, who, fs.Bans)})
+		}
 	}
 	return dedup(out)
 }
